@@ -56,13 +56,14 @@ H_ENTRY(h_pvss_group) {
   Z P(H_P), Q(q), G(g), Hh(h);
   PedersenVSS *v = 0;
   H_TRY(v = new PedersenVSS(3, 1, 0, P, Q, G, Hh, FSZ, GSZ, false, "x"));
-  vf_assume(vfh_exc == 0 && v != 0);      // construction on hostile parameters is C12's subject
-  bool got = false; H_TRY(got = v->CheckGroup());
-  vf_assert(vfh_exc == 0, "CheckGroup returns (no exception) on arbitrary parameters");
+  vf_assert(vfh_exc == 0 || vfh_exc == 1, "constructor returns or refuses with a standard exception");
+  bool constructed = (vfh_exc == 0 && v != 0);
+  bool got = false;
+  if (constructed) { H_TRY(got = v->CheckGroup()); vf_assert(vfh_exc == 0, "CheckGroup returns (no exception) on arbitrary parameters"); }
   long k = (q > 0) ? (H_P - 1) / q : 0;
   bool spec = q > 0 && spec_pq(H_P, q, k) && powmod(h, q, H_P) == 1 && powmod(g, q, H_P) == 1 && h > 1 && h < H_P - 1 && g > 1 && g < H_P - 1 && g != h;
-  if (spec) spec = (g == derive_g(v->p, v->q, H_P, q, k));
-  vf_assert(got == spec, "PedersenVSS::CheckGroup accepts exactly the well-formed parameter sets");
+  if (spec && constructed) spec = (g == derive_g(v->p, v->q, H_P, q, k));
+  vf_assert(got == spec, "PedersenVSS: construction + CheckGroup accept exactly the well-formed parameter sets");
   if (got) {
     long a = vfh_range(-2, H_P + 3); Z A(a);
     bool ce = v->CheckElement(A);
